@@ -28,6 +28,7 @@ EXPLANATION = (
     "NOT decided: textual idempotence of YAML, verdict equality on "
     "probe frames, dtype string aliases resolving at run time."
     ' (R16) every construction of a MultiIndex in the reader and MULTIINDEX_TEMPLATE supplies the options the property lists as serialisable (coerce, strict, ordered, name, unique); today none is (known findings).'
+    " (R17) the datetime branch of the writer's and the reader's stat converter (handle_stat_dtype) is entered through dtypes.is_datetime - the predicate the statistics producer classifies with, which covers time-zone-aware columns - not by `.check()` against the naive DateTime dtype."
 )
 LEVEL_RULE = "one obligation per (attribute, hop) / template slot / dictionary key found in the current tree"
 FLOORS = {"R1": 90, "R2": 14, "R3": 20, "R4": 3, "R5": 5, "R6": 3, "R7": 3, "R8": 1, "R9": 1, "R10": 1, "R12": 2, "R13": 1, "R14": 1, "R15": 1}
@@ -661,6 +662,54 @@ def r16_multiindex_rebuilt_with_its_options(ctx):
         raise AnalysisError(f"MultiIndex construction sites in the reader / script template found: {n}")
 
 
+def r17_stat_converter_covers_every_datetime_dtype(ctx):
+    """The statistics producer decides with `dtypes.is_datetime(dtype)` that a column's bounds are Timestamps - for
+    time-zone-aware columns too.  The stat converters of the writer and the reader turn Timestamps into text and back
+    only in their datetime branch; if that branch is entered by *recognising the naive DateTime dtype*
+    (`Engine.dtype(dtypes.DateTime).check(dtype)` is False for datetime64[ns, UTC]) the tz-aware bounds reach the YAML /
+    JSON dumper as Timestamp objects and to_yaml / to_json raise.  The branch test has to be as wide as the producer's
+    classification (is_datetime)."""
+    io = ctx.ix.module(IO)
+    st = ctx.ix.module(STATS)
+    producer_wide = any(isinstance(c, ast.Call) and callee_last(c) == "is_datetime" for f in st.all_functions for c in ast.walk(f.node))
+    seen_sites = set()
+    n = 0
+    for f in io.all_functions:
+        # role: the conversion of a Timestamp statistic - the statement that renders it (`.strftime(`) or parses it back
+        # (`to_datetime(`); the branch test that lets a statistic in is the nearest enclosing test that inspects the dtype
+        for c in calls_in(f.node):
+            if callee_last(c) not in ("strftime", "to_datetime"):
+                continue
+            child, p_ = c, getattr(c, "_parent", None)
+            decided = None
+            while p_ is not None and p_ is not f.node and decided is None:
+                if isinstance(p_, (ast.If, ast.IfExp)) and child is not p_.test:
+                    calls = [x for x in ast.walk(p_.test) if isinstance(x, ast.Call)]
+                    narrow = [x for x in calls if callee_last(x) == "check" and isinstance(x.func, ast.Attribute)
+                              and any(isinstance(a, ast.Attribute) and a.attr == "DateTime" for a in ast.walk(x.func.value))]
+                    wide = [x for x in calls if callee_last(x) == "is_datetime"]
+                    if narrow or wide:
+                        decided = (narrow, wide)
+                child, p_ = p_, getattr(p_, "_parent", None)
+            if decided is None:
+                continue
+            narrow, wide = decided
+            key = (f.qual, "w" if callee_last(c) == "strftime" else "r")
+            if key in seen_sites:
+                continue
+            seen_sites.add(key)
+            n += 1
+            ctx.touched(f)
+            ok = bool(wide) or not producer_wide
+            role = "writer" if callee_last(c) == "strftime" else "reader"
+            ctx.ob("R17", f, f"{role}: the datetime branch of the stat converter is entered for every dtype the producer classifies as datetime", ok,
+                   "is_datetime" if ok else
+                   f"`{txt(narrow[0])[:70]}` recognises the time-zone-naive dtype only, while the statistics use is_datetime: for a datetime64[ns, UTC] column the Timestamp "
+                   "bounds are written unconverted - infer_schema(D).to_yaml() raises RepresenterError, to_json() TypeError", f.loc(narrow[0] if narrow else wide[0]))
+    if n < 2:
+        raise AnalysisError(f"stat converters with a datetime branch found: {n}")
+
+
 def run(ctx):
     from ..defassign import check_modules
     check_modules(ctx, "R10", ('pandera/io/pandas_io.py', 'pandera/schema_statistics/pandas.py'), "escapes serialisation: the round trip is not even attempted")
@@ -673,6 +722,7 @@ def run(ctx):
     r14_lossless_index_source(ctx)
     r15_column_keys_as_they_are(ctx)
     r16_multiindex_rebuilt_with_its_options(ctx)
+    r17_stat_converter_covers_every_datetime_dtype(ctx)
     ix = ctx.ix
     io = ix.module(IO)
     st = ix.module(STATS)
